@@ -39,8 +39,14 @@ def law_programs(rnd, n):
                     obs(bin_("==", call("join", ident("c")), ident("s"))), obs(call("join", ident("c"), lit(vstr("-"))))]
             tag = "law join(chars(s))"
         elif r < 0.85:
-            kind = rnd.choice(["int", "float", "str", "mixed"])
-            if kind == "int":
+            kind = rnd.choice(["int", "int-near", "float", "str", "mixed"])
+            if kind == "int-near":
+                # neighbours far from zero: they differ only in bits a conversion to a double would drop
+                base = rnd.choice([1 << 53, (1 << 53) + 1, 1 << 60, (1 << 63) - 9, -(1 << 63) + 9, -(1 << 53) - 1, 10 ** 17])
+                ds = [rnd.randint(-4, 4) for _ in range(rnd.randint(2, 7))]
+                ds.sort(reverse=rnd.random() < 0.7)
+                es = [I(base + d) for d in ds]
+            elif kind == "int":
                 es = [I(rnd.choice([rnd.randint(-5, 5), rnd.randint(-(1 << 63), (1 << 63) - 1)])) for _ in range(rnd.randint(0, 17))]
             elif kind == "float":
                 es = [lit(vfloat(rnd.randint(-64, 64) / 4)) for _ in range(rnd.randint(0, 9))]
@@ -52,11 +58,18 @@ def law_programs(rnd, n):
             prog = [OBS_DECL, let("a", arr(*es)), let("b", ident("a")), expr(call("sort", ident("a"))), obs(ident("a")),
                     obs(ident("b"))]
             tag = "law sort " + kind
-        else:
+        elif r < 0.93:
             x = rnd.randint(-4096, 4096) / 16
             prog = [OBS_DECL, let("x", lit(vfloat(x))), obs(bin_("==", call("float", call("str", ident("x"))), ident("x"))),
                     obs(call("round", ident("x"), I(0))), obs(call("int", ident("x")))]
             tag = "law float(str(x))"
+        else:
+            # round(x, n) for every precision: values with no more than n places are their own rounding
+            x = rnd.choice([float(rnd.choice([0, 1, -1, 16, -16, 1024, 99999, 1048576])), rnd.randint(-4096, 4096) / 16,
+                            rnd.randint(-255, 255) / 256, "nan", "pinf", "ninf"])
+            ns = sorted({rnd.randint(0, 18) for _ in range(4)} | {18, rnd.choice([0, 8, 12, 17])})
+            prog = [OBS_DECL, let("x", lit(vfloat(x)))] + [obs(call("round", ident("x"), I(k))) for k in ns]
+            tag = "law round"
         out.append((tag, prog))
     return out
 
@@ -71,7 +84,7 @@ def run(rep, tier, seed):
                       "kinds": ",".join(t.split(":")[0] for t in c["tags"]), "tags": c["tags"]})
     rnd = random.Random(seed)
     n = 10000000
-    for tag, prog in law_programs(rnd, 400 if tier == "quick" else 8000):
+    for tag, prog in law_programs(rnd, 600 if tier == "quick" else 8000):
         items.append({"id": n, "prog": prog, "b": tag, "ar": 0, "kinds": "", "tags": []})
         n += 1
     bad, verdicts = progs.run_and_validate(rep, items, chk=("bname",))
